@@ -96,7 +96,7 @@ class Gen:
     def seg_malformed(self):
         for _ in range(self.r.randrange(1, 4)):
             bi = self.r.randrange(self.n)
-            self.blocks[bi].append([3, self.sender(), self.r.randrange(7)])
+            self.blocks[bi].append([3, self.sender(), self.r.randrange(8)])
         self.tags.add("malformed")
 
     def seg_one2one(self):
@@ -437,6 +437,48 @@ def first_call_histories(k, rounds):
     return hs
 
 
+def sig_fanout_history(rng, k, ntx):
+    """blocks of many transactions that did not come through this node's API (the driver executes every
+    block with LocalList = false), a good part of them with an invalid signature: verifySign starts one
+    goroutine per transaction; which ones are refused must not depend on scheduling.  The driver also
+    checks the refused set against the transactions whose VerifySignature() fails one by one."""
+    blocks = []
+    for b in range(2):
+        txs = []
+        for i in range(ntx):
+            u = rng.randrange(6)
+            if rng.random() < 0.3:
+                txs.append([3, u, 7])                       # zero transfer, bad signature
+            else:
+                txs.append([1, u, rng.randrange(6), 0])      # zero transfer, valid
+        blocks.append(dict(txs=txs, restart=[0] * k))
+    setup = dict(chains=[0, 1], gas=0, services=[[0, 0, 1, 0], [1, 0, 1, 0]])
+    return dict(id="sig-fanout", k=k, genesis="own", setup=setup, groups=[], blocks=blocks, tags=["sig_fanout"])
+
+
+def multi_service_event_history(k):
+    """one transaction that changes SEVERAL services: an appchain with two governed services is frozen;
+    the concluding vote pauses both services and posts two SERVICE events in one receipt; then IBTPs to
+    each of them, one replica restarted before (reads the ledger), the others not (read the cache)."""
+    G = GOVCHAIN
+    rs1 = [0, 1] + [j % 2 for j in range(k - 2)]
+    no = [0] * k
+    blocks = [
+        dict(txs=[[4, 0, 1, G, 0, 0]], restart=no),                                                   # P0 register appchain
+        dict(txs=[[4, 100, 2, 0, 0, 0], [4, 101, 2, 0, 0, 0], [4, 102, 2, 0, 0, 0]], restart=no),
+        dict(txs=[[4, 0, 3, G, 1, 1], [4, 0, 3, G, 2, 1]], restart=no),                               # P1, P2 register services
+        dict(txs=[[4, 100, 2, 0, 0, 1], [4, 101, 2, 0, 0, 1], [4, 102, 2, 0, 0, 1],
+                  [4, 100, 2, 0, 0, 2], [4, 101, 2, 0, 0, 2], [4, 102, 2, 0, 0, 2]], restart=no),
+        dict(txs=[[2, 1, 0, 0, G, 1, 1, 0, 0, 0, 0], [2, 2, 1, 0, G, 2, 1, 0, 0, 0, 0]], restart=no),   # both available
+        dict(txs=[[4, 100, 8, G, 0, 0]], restart=no),                                                 # P3 freeze appchain
+        dict(txs=[[4, 101, 2, 0, 0, 3], [4, 102, 2, 0, 0, 3], [4, 103, 2, 0, 0, 3]], restart=no),     # concluding vote pauses both
+        dict(txs=[[2, 1, 0, 0, G, 1, 2, 0, 0, 0, 0], [2, 2, 1, 0, G, 2, 2, 0, 0, 0, 0]], restart=rs1),
+        dict(txs=[], restart=no),
+    ]
+    setup = dict(chains=[0, 1], gas=0, services=[[0, 0, 1, 0], [1, 0, 1, 0]])
+    return dict(id="multi-service-event", k=k, genesis="own", setup=setup, groups=[], blocks=blocks, tags=["multi_service_event"])
+
+
 def malformed_history(rng, k, hid):
     n = rng.randrange(3, 7)
     g = Gen(rng, n, 0)
@@ -571,7 +613,7 @@ def g_case(h, out, flags, cands, all_replicas):
                 if s[3] == 2:
                     continue
                 seed.append("(K_svc %d, VSvc %s)" % (svc(s[0], s[1]), g_svcrec(s[3] == 0, s[2] != 0)))
-        invalid = [i for i, op in enumerate(b["txs"]) if (op[0] == 2 and len(op) > 10 and op[10] & 3 != 0) or (op[0] == 3 and op[2] == 5)]
+        invalid = [i for i, op in enumerate(b["txs"]) if (op[0] == 2 and len(op) > 10 and op[10] & 3 != 0) or (op[0] == 3 and op[2] in (5, 7))]
         blocks.append("(Build_block %s %s)" % (glist(txs), glist(invalid, str)))
         if bi == 0:
             genesis_seed = seed
@@ -704,7 +746,7 @@ def decide(ctx, exe, hs, outs, flags, known, label):
         h, o = hs[i], outs[i]
         nacc = sum(1 for b in o["obs"] for t in (b["txs"] or []) if t["status"] == 0)
         nrej = sum(1 for b in o["obs"] for t in (b["txs"] or []) if t["status"] != 0)
-        sites = [t for t in h.get("tags", []) if t.split(":")[0] in ("group", "shared_timeout", "gov_service", "freeze", "failing_event", "singleton", "perm_first_error", "admin_first_error", "promoted", "tl_empty", "first_call_after_restart", "remote_hub_after_restart")]
+        sites = [t for t in h.get("tags", []) if t.split(":")[0] in ("group", "shared_timeout", "gov_service", "freeze", "failing_event", "singleton", "perm_first_error", "admin_first_error", "promoted", "tl_empty", "first_call_after_restart", "remote_hub_after_restart", "sig_fanout", "multi_service_event")]
         ctx.count(case_key=("h", json.dumps(h["blocks"], sort_keys=True)), nontrivial=nacc > 0 and nrej > 0 and bool(sites),
                   sample=dict(driver="replicas", id=h["id"], tags=h.get("tags"), blocks=len(h["blocks"]), k=o["k"], agree=o["agree"], verdict=v,
                               first_block=o["obs"][0] if o["obs"] else None))
@@ -801,6 +843,7 @@ def run(ctx):
         for i in range(max(4, n // 8)):
             hs.append(malformed_history(ctx.rng, k, "m%d" % i))
         hs += first_call_histories(3 if ctx.quick else 4, 14 if ctx.quick else 24)
+        hs += [sig_fanout_history(ctx.rng, k, 96 if ctx.quick else 256), multi_service_event_history(k)]
         total = 0
         for s in range(0, len(hs), 150):
             part = hs[s:s + 150]
